@@ -1586,9 +1586,20 @@ bool GennaroJareckiKrawczykRabinNTS::Sign
 		mpz_set(u_i[i], k_dkg->z_i[i]);
 		for (size_t j = 0; j < n; j++)
 			mpz_set(r_i[j], k_dkg->y_i[j]);
-		mpz_set(r, k_dkg->y);
 		for (size_t j = 0; j < k_dkg->QUAL.size(); j++)
 			QUALprime.push_back(k_dkg->QUAL[j]);
+		// The value $r$ must contain only the contributions of parties from
+		// $QUAL \cap QUAL\prime$, because a party that is disqualified w.r.t.
+		// the key (i.e. not in $QUAL$) does not contribute to $s$ below.
+		mpz_set_ui(r, 1L);
+		for (size_t j = 0; j < QUALprime.size(); j++)
+		{
+			if (std::find(QUAL.begin(), QUAL.end(), QUALprime[j]) != QUAL.end())
+			{
+				mpz_mul(r, r, r_i[QUALprime[j]]);
+				mpz_mod(r, r, p);
+			}
+		}
 		// 2. Each party locally computes the challenge $c = H(m, r)$.
 		tmcg_mpz_shash(c, 2, m, r);
 		if (simulate_faulty_behaviour && simulate_faulty_randomizer)
